@@ -39,7 +39,28 @@ def main():
             in_repo = [f for f in tb if f.filename.startswith(common.REPO)]
             traceback.print_exc()
             if not in_repo:
-                return 2
+                # an internal of emg3d the correspondence is attached to
+                # (private method, module attribute) is gone: the tie to the
+                # code is lost, the property is no longer shown to hold
+                obj = getattr(e, 'obj', None)
+                mod_ = getattr(obj, '__name__', '') if isinstance(
+                    obj, type(os)) else type(obj).__module__
+                lost = (isinstance(e, AttributeError) and obj is not None and
+                        str(mod_).startswith('emg3d')) or (
+                    isinstance(e, ImportError) and
+                    str(getattr(e, 'name', '')).startswith('emg3d'))
+                if not lost:
+                    return 2
+                ctx.violation(
+                    'tie-to-code-lost',
+                    f'{type(e).__name__}: {str(e)[:200]}: an internal of '
+                    f'emg3d that the correspondence check observes no longer '
+                    f'exists; the model is not tied to this code any more',
+                    {'exception': type(e).__name__, 'message': str(e)[:500],
+                     'traceback': [f'{os.path.relpath(f.filename, "/")}:'
+                                   f'{f.lineno} {f.name}' for f in tb][-12:]},
+                    found_input=False)
+                return ctx.finish()
             fr = in_repo[-1]
             ctx.violation(
                 'code-under-test-raised',
